@@ -22,6 +22,7 @@ func c19Patterns(thorough bool) []c19Pat {
 		{`"a"`, func() Expr { return S("a") }},
 		{"null", func() Expr { return &NullLit{} }},
 		{"true", func() Expr { return &BoolLit{B: true} }},
+		{"0", func() Expr { return N("0") }},
 		{`"1"`, func() Expr { return S("1") }}, // the same text as the number 1, another kind
 		{`'2'`, func() Expr { return &StrLit{S: "2", Quote: '\''} }},
 	}
@@ -88,6 +89,9 @@ var c19Subjects = []c19Subj{
 	{`"1"`, func() Expr { return S("1") }},
 	{`"1.0"`, func() Expr { return S("1.0") }},
 	{`[1,2,3]`, func() Expr { return Arr_(N("1"), N("2"), N("3")) }},
+	// both zeros: match agrees with ==
+	{"-0", func() Expr { return Un("-", N("0")) }},
+	{"0", func() Expr { return N("0") }},
 	// nulls that were read from places that do not exist, at the very index a literal pattern spells
 	{"[9][1]", func() Expr { return Idx(Arr_(N("9")), N("1")) }},
 	{"{}[2]", func() Expr { return Idx(&Paren{X: &ObjLit{}}, N("2")) }},
@@ -109,7 +113,7 @@ const c19StreamDocRev = `[0,false,"2",[[1],7],{"a":1},[1,[2,3]],[2,5],[1],[],tru
 var c19Sum = &Func{Name: "sum", Params: []string{"n"}, Body: Blk(&Return{X: &MatchExpr{Subj: V("n"), Cases: []MatchCase{{Pats: []Expr{N("0")}, Body: N("0")}, {Pats: []Expr{V("m")}, Body: Bin("+", CallE(V("sum"), Bin("-", V("m"), N("1"))), V("m"))}}}})}
 var c19T2 = &Func{Name: "t2", Params: []string{"i"}, Body: Blk(&Return{X: &MatchExpr{Subj: Arr_(V("i"), S("in t2")), Cases: []MatchCase{{Pats: []Expr{Arr_(V("x"), V("y"))}, Body: Arr_(V("y"), V("x"))}}}})}
 
-const c19Bodies = 7
+const c19Bodies = 8
 
 func c19Build(s c19Spec, pats []c19Pat) *progCase {
 	var subj Expr
@@ -149,6 +153,9 @@ func c19Build(s c19Spec, pats []c19Pat) *progCase {
 				leave = &Next{}
 			}
 			mc.Block = Blk(Pr(S("block"), id, V("x"), V("y")), leave, Pr(S("never")))
+		case 7:
+			// a block holding one expression statement is still a block: the match yields null
+			mc.Block = Blk(Ex(Arr_(id, V("x"), V("y"))))
 		case 6:
 			// a name first created inside the body belongs to the case: afterwards it is unset again, whatever kind of pattern selected the case
 			mc.Block = Blk(Ex(Asg("=", V("fresh"), Arr_(id, V("x")))), Ex(Asg("=", Mem(V("made"), "k"), id)), Pr(S("block"), V("fresh"), V("made")))
@@ -198,7 +205,7 @@ func c19Check(c *fw.Ctx, s c19Spec, pats []c19Pat) *fw.Violation {
 func init() {
 	fw.Register(addTok(tokFramesC19, &fw.Prop{
 		ID: "C19",
-		Rule: "17 subjects (scalars of every kind, unset, arrays of several lengths and nestings, an object) x all case lists of <= 2 cases with <= 2 alternatives each and all lists of 3 single-alternative cases over the pattern alphabet x 7 body kinds (a block left by continue / next, a block that creates new names -- gone afterwards, expression using the bound names, block with a trace, tracing call, a body that runs three further matches -- new name, array pattern, shadowing -- before using the names again, a body that calls matching / recursing functions); " +
+		Rule: "19 subjects (scalars of every kind, unset, arrays of several lengths and nestings, an object) x all case lists of <= 2 cases with <= 2 alternatives each and all lists of 3 single-alternative cases over the pattern alphabet x 8 body kinds (a block of one expression statement (null), a block left by continue / next, a block that creates new names -- gone afterwards, expression using the bound names, block with a trace, tracing call, a body that runs three further matches -- new name, array pattern, shadowing -- before using the names again, a body that calls matching / recursing functions); " +
 			"every case list of <= 3 single-alternative cases is also run as ONE match site over the sequence of all subjects (forward and reversed); outer variables named like the pattern names exist, so leaking or clobbering a binding is visible; oracle: DESIGN.md 3.17 through the reference interpreter (selected case, bindings, value, and the trace shows that no later pattern or body ran); " +
 			"a state is (subject, first-case pattern, selected?); non-trivial = (subject, pattern) pairs that match",
 		Plan: func(t fw.Tier) int { return len(c19Patterns(t == fw.Thorough)) * len(c19Subjects) },
